@@ -1,0 +1,38 @@
+//go:build verif
+
+// Contracts for govc (contract-based deductive verification, see /verif/DESIGN.md).
+// Comment-only file: it adds no code and is compiled only with -tags verif.
+
+package middleware
+
+// Definition of the ghost predicate isAuthMW (specs/http.spec): it names the
+// middleware constructed here. Not verified against the body.
+//@ func BasicAuthMiddleware
+//@   modifies nothing
+//@   ensures isAuthMW(result)
+
+// The credential check itself: the wrapped handler is entered at most once, and
+// only if the Authorization header is "Basic " followed by text that base64-
+// decodes to exactly login ":" pass.
+//@ func BasicAuthMiddleware$1$1 [C20]
+//@   requires nextServed == 0
+//@   ensures at-most-once: nextServed <= 1
+//@   ensures credentials: nextServed == 1 ==> (exists x string :: r.Header.Get("Authorization") == "Basic" + " " + x && b64dec(x) == login + ":" + pass)
+
+// Closing the gzip wrapper flushes to the underlying writer; it enters no handler.
+//@ func (*gzipResponseWriter).Close [C20]
+//@   modifies fields(gzw)
+
+//@ func newGzipResponseWriter
+//@   modifies nothing
+//@   ensures fresh(result)
+
+// Compression and CORS wrappers sit inside the credential check and enter the
+// wrapped handler exactly once.
+//@ func AcceptEncodingMiddleware$1 [C20]
+//@   requires nextServed == 0
+//@   ensures nextServed == 1
+
+//@ func CorsMiddleware$1$1 [C20]
+//@   requires nextServed == 0
+//@   ensures nextServed == 1
